@@ -165,10 +165,11 @@ async fn transfer(a: &Inst, b: &Inst, room_b64: &str, ids: &[String]) {
     }
 }
 
-fn head(ent: u64, room: Option<u64>, date: i64, has_node: bool, old: Option<(u64, u64)>) -> String {
+fn head(ent: u64, room: Option<u64>, date: i64, has_node: bool, old: Option<(u64, u64)>) -> String { head_d(ent, room, date, has_node, old, &[]) }
+fn head_d(ent: u64, room: Option<u64>, date: i64, has_node: bool, old: Option<(u64, u64)>, dels: &[u64]) -> String {
     let o = old.map(|(r, au)| format!("{{| o_room := {}; o_author := {} |}}", gon(Some(r)), gn(au)));
-    format!("{{| h_kind := KNormal; h_ent := {}; h_room := {}; h_date := {}; h_has_node := {}; h_too_big := false; h_old := {}; h_edge_dels := 0%N |}}",
-        gn(ent), gon(room), gz(date), gb(has_node), gopt(&o))
+    format!("{{| h_kind := KNormal; h_ent := {}; h_room := {}; h_date := {}; h_has_node := {}; h_too_big := false; h_old := {}; h_edge_dels := {} |}}",
+        gn(ent), gon(room), gz(date), gb(has_node), gopt(&o), glist(&dels.iter().map(|a| gn(*a)).collect::<Vec<_>>()))
 }
 fn ment(h: String, subs: Vec<String>) -> String { format!("(MEnt {} {})", h, glist(&subs)) }
 fn dnode(ent: u64, room: u64, author: u64, date: i64) -> String {
@@ -231,7 +232,7 @@ async fn scenario(rng: &mut Rng, out: &mut Out, sidx: usize) {
         let defs = defs_coq(&scn.defs);
         let before = dump(&a).await;
         let before_rooms = dump_rooms(&a).await;
-        let kind = rng.below(13);
+        let kind = rng.below(14);
         let (coq, refused, opname): (String, bool, &str);
         match kind {
             0 | 1 => { // create (plain or nested)
@@ -241,13 +242,13 @@ async fn scenario(rng: &mut Rng, out: &mut Out, sidx: usize) {
                 if kind == 0 {
                     let ent = 1 + rng.below(3);
                     let res = a.db.mutate_raw(&format!(r#"mutate {{ ns.E{ent}{{ room_id:$r name:"a-row" }} }}"#), Some(p)).await;
-                    coq = format!("CMut {} {} [{}]", defs, gn(A), ment(head(ent, Some(rid), now, true, None), vec![]));
+                    coq = format!("CMut {} {} {} [{}]", defs, gn(A), gz(now), ment(head(ent, Some(rid), now, true, None), vec![]));
                     refused = res.is_err();
                     if let Ok(r) = res { scn.rows.push(Row { id: base64_encode(&r.mutate_entities[0].node_to_mutate.id), ent, room: rid, author: A, children: vec![], alive: true }); }
                     opname = "create";
                 } else {
                     let res = a.db.mutate_raw(r#"mutate { ns.E1{ room_id:$r name:"a-parent" subs:[{name:"a-child"}] } }"#, Some(p)).await;
-                    coq = format!("CMut {} {} [{}]", defs, gn(A), ment(head(1, Some(rid), now, true, None), vec![ment(head(2, Some(rid), now, true, None), vec![])]));
+                    coq = format!("CMut {} {} {} [{}]", defs, gn(A), gz(now), ment(head(1, Some(rid), now, true, None), vec![ment(head(2, Some(rid), now, true, None), vec![])]));
                     refused = res.is_err();
                     if let Ok(r) = res {
                         let pe = &r.mutate_entities[0];
@@ -270,7 +271,7 @@ async fn scenario(rng: &mut Rng, out: &mut Out, sidx: usize) {
                            else { format!(r#"mutate {{ ns.E{}{{ id:$id name:$nm }} }}"#, row.ent) };
                 p.add("nm", format!("upd-{}", out.n)).unwrap();
                 let res = a.db.mutate_raw(&text, Some(p)).await;
-                coq = format!("CMut {} {} [{}]", defs, gn(A), ment(head(row.ent, Some(dest), now, true, Some((row.room, row.author))), vec![]));
+                coq = format!("CMut {} {} {} [{}]", defs, gn(A), gz(now), ment(head(row.ent, Some(dest), now, true, Some((row.room, row.author))), vec![]));
                 refused = res.is_err();
                 if res.is_ok() { scn.rows[i].author = A; scn.rows[i].room = dest; }
                 opname = if mv { "move" } else { "update" };
@@ -286,7 +287,7 @@ async fn scenario(rng: &mut Rng, out: &mut Out, sidx: usize) {
                 p.add("c", cr.id.clone()).unwrap();
                 p.add("nm", format!("via-parent-{}", out.n)).unwrap();
                 let res = a.db.mutate_raw(r#"mutate { ns.E1{ id:$p subs:[{ id:$c name:$nm }] } }"#, Some(p)).await;
-                coq = format!("CMut {} {} [{}]", defs, gn(A), ment(head(1, Some(pr.room), now, false, Some((pr.room, pr.author))),
+                coq = format!("CMut {} {} {} [{}]", defs, gn(A), gz(now), ment(head(1, Some(pr.room), now, false, Some((pr.room, pr.author))),
                     vec![ment(head(2, Some(cr.room), now, true, Some((cr.room, cr.author))), vec![])]));
                 refused = res.is_err();
                 if res.is_ok() { scn.rows[ci].author = A; }
@@ -340,6 +341,22 @@ async fn scenario(rng: &mut Rng, out: &mut Out, sidx: usize) {
                 }
                 opname = "room-mutation";
             }
+            13 => { // all references of a field removed by an update (subs: null): created by the caller or by someone else
+                let parents: Vec<usize> = alive.iter().cloned().filter(|i| scn.rows[*i].ent == 1).collect();
+                if parents.is_empty() { continue; }
+                let pi = *rng.pick(&parents);
+                let pr = scn.rows[pi].clone();
+                let kids: Vec<usize> = pr.children.iter().cloned().filter(|c| scn.rows[*c].alive).collect();
+                let authors: Vec<u64> = kids.iter().map(|c| *edge_author.get(&(pi, *c)).unwrap_or(&B)).collect();
+                let mut p = Parameters::default();
+                p.add("p", pr.id.clone()).unwrap();
+                let res = a.db.mutate_raw(r#"mutate { ns.E1{ id:$p subs:null } }"#, Some(p)).await;
+                // without any reference to remove nothing is updated: the parent is a "reference only" head
+                coq = format!("CMut {} {} {} [{}]", defs, gn(A), gz(now), ment(head_d(1, Some(pr.room), now, !kids.is_empty(), Some((pr.room, pr.author)), &authors), vec![]));
+                refused = res.is_err();
+                if res.is_ok() && !kids.is_empty() { scn.rows[pi].author = A; scn.rows[pi].children.clear(); }
+                opname = "clear-references";
+            }
             12 => { // authorisation rows touched outside a room mutation: always refused
                 let rid = 1 + rng.below(2);
                 let g = *rng.pick(&scn.auth_ids[&rid].keys().cloned().collect::<Vec<_>>());
@@ -353,8 +370,8 @@ async fn scenario(rng: &mut Rng, out: &mut Out, sidx: usize) {
                     2 => a.db.mutate_raw(r#"mutate { sys.EntityRight{ entity:"*" mutate_self:true mutate_all:true } }"#, Some(p)).await.is_err(),
                     _ => a.db.delete("delete { sys.Authorisation { $g } }", Some(p)).await.is_err(),
                 };
-                let auth_head = format!("{{| h_kind := KAuthLike; h_ent := 1%N; h_room := None; h_date := {}; h_has_node := true; h_too_big := false; h_old := None; h_edge_dels := 0%N |}}", gz(now));
-                coq = if which < 3 { format!("CMut {} {} [{}]", defs, gn(A), ment(auth_head, vec![])) }
+                let auth_head = format!("{{| h_kind := KAuthLike; h_ent := 1%N; h_room := None; h_date := {}; h_has_node := true; h_too_big := false; h_old := None; h_edge_dels := [] |}}", gz(now));
+                coq = if which < 3 { format!("CMut {} {} {} [{}]", defs, gn(A), gz(now), ment(auth_head, vec![])) }
                       else { format!("CDel {} {} {} [{{| dn_kind := KAuthLike; dn_ent := 1%N; dn_room := None; dn_author := {}; dn_date := {} |}}] [] []", defs, gn(A), gz(now), gn(B), gz(now)) };
                 refused = res_err;
                 opname = "authorisation-row-outside-room-mutation";
